@@ -101,6 +101,15 @@ CLAIMED = {
              'model of Footnote.read (tied by correspondence and C02), not specified independently.',
         technique='Coq proof (induction over definition lists) + extracted-model correspondence + generator oracle',
         design='5/C07'),
+    'C13': dict(
+        text='PARTIAL. Theorems for ALL buffers, token sets and nested tokenizers about the model of the dispatch loop and the container readers: every '
+             'entry of a buffer is exactly what the readers produce when started on the suffix that begins at the entry\'s recorded line; line numbers strictly '
+             'increase along a buffer; a quote hands its children one buffer line per consumed line numbered from its own line; a list item\'s buffer is '
+             'prefix-aligned with the lines it consumed. The model computes the line number of every block token (rows and cells included) and is compared '
+             'with the implementation on every token (X-doc). The composition over nesting is decided by a generator that records the line of every block it writes.',
+        note='Trusted: Coq kernel, extraction, parser model (correspondence-checked on all line numbers), line-recording generator. Known finding kf_setext_in_quote; one fix: commit (blank first line of a list item).',
+        technique='Coq proof (induction over the dispatch loop and reader loops) + extracted-model correspondence + line-recording generator oracle',
+        design='5/C13'),
 }
 
 NOT_YET = {}
